@@ -14,7 +14,7 @@ RULE = ("the C07 grid (7 blocking operations x T in {-1,0,1,2,17,1000,2^31-1} x 
 ASSUMPTIONS = ["A-POLL: poll interrupted by a handled signal returns -1/EINTR and may be re-issued",
                "elapsed time across interruptions is modelled in whole milliseconds"]
 TRUSTED = ["vos shim (EINTR injection into poll, virtual clock)"]
-ALL_TAGS = ["eintr", "recv.none", "recv.value", "send.all", "send.try", "send.some", "sendto", "recvfrom", "listen"]
+ALL_TAGS = ["eintr", "recv.none", "recv.value", "send.all", "send.try", "send.some", "sendto", "recvfrom", "listen", "step.eintr"]
 EXHAUSTIVE = {"quick": True, "thorough": True}
 
 
@@ -24,6 +24,14 @@ def nontrivial(ops, tags):
 
 def gen(rng, tier):
     cases = [("sockops", "g%d" % i, ops) for i, ops in enumerate(sockgen.grid_cases(True))]
+    k = 0
+    for T in sockgen.TIMEOUTS:
+        for ev in ([1], [2, 5], [1, 1, 1, 2, 5], [0], [7, 11]):
+            if T >= 0 and sum(ev) > T and T != 0:
+                continue
+            cases.append(("todos", "st%d" % k, ["clock 1000000000"] + ["eintr %d" % d for d in ev] + ["step %d" % T] if T >= 0 else
+                          ["clock 1000000000", "stop"] + ["eintr %d" % d for d in ev] + ["step %d" % T]))
+            k += 1
     n = 60 if tier == "quick" else 8000
     for k in range(n):
         ops = sockgen.c01_case(rng) if rng.random() < 0.7 else sockgen.udp_case(rng)
